@@ -228,6 +228,8 @@ func (t *translator) leanType(ty types.Type, at ast.Node) string {
 			return "UInt8"
 		case isString(u):
 			return "Go.Str"
+		case u.Kind() == types.Float64: // copy-only: see Go.F64 and the header of main.go
+			return "Go.F64"
 		}
 	case *types.Slice:
 		return "Array " + paren(t.leanType(u.Elem(), at))
@@ -292,6 +294,8 @@ func (t *translator) zero(ty types.Type, at ast.Node) string {
 			return "0"
 		case types.String:
 			return "([] : Go.Str)"
+		case types.Float64:
+			return "Go.F64.zero"
 		}
 	case *types.Slice:
 		return "#[]"
